@@ -479,6 +479,7 @@ def run(ctx):
     assumptions = ["distance of a deleted vertex is measured to the segment between its two "
                    "surviving neighbours, exactly (Fractions), strict '<' against tol^2",
                    "exact ties (distance == tolerance) are skipped in the predicate comparison"]
+    coverage["rule"] += ("; one window of c-1..c+2 and 2c+1 vertices for every constant c in 3001..100000 of plot_utils' source (overshoot, back-track, bulge, zigzag; integer coordinates) handed to the predicate, and a doubling-back dense stroke of c+60 vertices through supersample")
     return {"part": part, "coverage": coverage, "assumptions": assumptions}
 
 
